@@ -322,7 +322,7 @@ func Run(c *engine.Ctx) {
 	c.Add("states", evals)
 	c.Add("transitions", evals)
 	c.Add("traces_validated_against_impl", evals)
-	c.Cov["rule"] = "catalogue: inner tokens (valid AP-REQ per etype, each judged C01 defect, KRB-ERROR with three msg-types, AP-REP, wrong/unknown TOK_IDs, none, garbage) x framings (GSS-framed and bare NegTokenInit with 7 mech lists, NegTokenResp with 4 states x 3 mechs, raw KRB5 token) plus 12 header shapes, each also given to AcceptSecContext and the Verify methods; every prefix and every single-byte substitution (255 values) of three valid tokens; every request sequence of length <=4 over {fresh valid token, replayed token, no header, garbage, session cookie} x 4 session-manager behaviours. distinct = (inner, framing, served?) classes, mutation classes, sequence outcomes"
+	c.Cov["rule"] = "catalogue: inner tokens (valid AP-REQ per etype, each judged C01 defect, KRB-ERROR with three msg-types, AP-REP, wrong/unknown TOK_IDs, none, garbage) x framings (GSS-framed and bare NegTokenInit with 7 mech lists, NegTokenResp with 4 states x 3 mechs, raw KRB5 token) plus 12 header shapes, each also given to AcceptSecContext and the Verify methods; every prefix and every single-byte substitution (255 values) of three valid tokens; every request sequence of length <=4 over {fresh valid token of user 1, of user 2, replayed token, replay with case-changed sname, no header, garbage, latest session cookie, first session's cookie, forged cookie} x 4 session-manager behaviours (the in-memory store keeps the byte slice it is given), the identity served under a cookie being that of the request that established it. distinct = (inner, framing, served?) classes, mutation classes, sequence outcomes"
 }
 
 func sp(s string) *string { return &s }
@@ -446,7 +446,7 @@ func (m *memSessions) Get(r *http.Request, k string) ([]byte, error) {
 }
 
 func sequences(c *engine.Ctx, wd *world, evals *int64) {
-	events := []string{"fresh", "replay", "replay-sname-case-flipped", "none", "garbage", "cookie", "forged-cookie"}
+	events := []string{"fresh", "fresh-user2", "replay", "replay-sname-case-flipped", "none", "garbage", "cookie", "cookie-of-first-session", "forged-cookie"}
 	managers := []string{"none", "memory", "failing-new", "failing-get"}
 	depth := 4
 	var rec func(seq []string)
@@ -463,17 +463,24 @@ func sequences(c *engine.Ctx, wd *world, evals *int64) {
 		}
 		h := wd.handler(smi0) // one wrapper for the whole sequence, as in a running server
 		var lastTok, lastTokCase *string
-		cookie := ""
-		established := false // a session cookie issued after an accepted request exists
+		cookie, firstCookie := "", ""
+		cookieUser := map[string]string{} // session cookie -> the user whose accepted request established it
+		established := false              // a session cookie issued after an accepted request exists
 		nfresh := 0
 		for i, ev := range seq {
 			*evals++
 			var hdr *string
 			ck := ""
 			legitHeader := false
+			wantUser := "user1"
 			switch ev {
-			case "fresh":
+			case "fresh", "fresh-user2":
 				cs := apworld.Base(18)
+				if ev == "fresh-user2" {
+					// a longer name than user1, so that its encoded credentials are not shorter
+					cs.CName, cs.ACName = []string{"user2-with-a-longer-name"}, []string{"user2-with-a-longer-name"}
+					wantUser = "user2-with-a-longer-name"
+				}
 				cs.CTime = time.Duration(nfresh) * time.Microsecond
 				nfresh++
 				m, err := wd.w.Mint(cs)
@@ -505,6 +512,13 @@ func sequences(c *engine.Ctx, wd *world, evals *int64) {
 					return
 				}
 				ck = cookie
+				wantUser = cookieUser[cookie]
+			case "cookie-of-first-session":
+				if firstCookie == "" {
+					return
+				}
+				ck = firstCookie
+				wantUser = cookieUser[firstCookie]
 			case "forged-cookie":
 				ck = "sid=sess999"
 			}
@@ -514,7 +528,7 @@ func sequences(c *engine.Ctx, wd *world, evals *int64) {
 				c.Violate("sequences", "panic:sequence:"+ev, map[string]interface{}{"panic": o.Panic}, recd)
 				return
 			}
-			bySession := ev == "cookie" && established && sm != nil && !sm.failGet
+			bySession := (ev == "cookie" || ev == "cookie-of-first-session") && established && sm != nil && !sm.failGet
 			wantInner := bySession || (legitHeader && !(sm != nil && sm.failNew))
 			switch {
 			case o.InnerRan && !wantInner:
@@ -523,7 +537,7 @@ func sequences(c *engine.Ctx, wd *world, evals *int64) {
 			case !o.InnerRan && wantInner:
 				c.Violate("sequences", "authenticated-request-refused:"+ev+":"+mgr, map[string]interface{}{"outcome": o}, recd)
 				return
-			case o.InnerRan && (o.User != "user1" || o.Domain != apworld.Realm || !o.AuthN):
+			case o.InnerRan && (o.User != wantUser || o.Domain != apworld.Realm || !o.AuthN):
 				c.Violate("sequences", "wrong-identity-in-context:"+ev+":"+mgr, map[string]interface{}{"outcome": o}, recd)
 				return
 			case !o.InnerRan && legitHeader && sm != nil && sm.failNew:
@@ -537,6 +551,10 @@ func sequences(c *engine.Ctx, wd *world, evals *int64) {
 			}
 			if o.SetCookie != "" && o.InnerRan && legitHeader {
 				cookie, established = o.SetCookie, true
+				cookieUser[cookie] = wantUser
+				if firstCookie == "" {
+					firstCookie = cookie
+				}
 			}
 			c.Distinct(fmt.Sprintf("seq/%s/%s/%v", mgr, ev, o.InnerRan))
 		}
